@@ -25,6 +25,26 @@ Definition dispatch (fn : Z) (a : sexp) : sexp :=
                 (if Nat.eqb k 0 then true else d_bool (d_nth a 3)))
   | 10%Z => e_res e_str (bibtex_first_letter (d_str (d_nth a 0)))
   | 11%Z => e_res e_str (bibtex_abbreviate (d_str (d_nth a 0)) (d_opt d_str (d_nth a 1)))
+  | 12%Z =>
+    let s := d_str (d_nth a 1) in
+    match d_nat (d_nth a 0) with
+    | 0 => e_res e_str (bst_substring s (d_Z (d_nth a 2)) (d_Z (d_nth a 3)))
+    | 1 => e_res e_str (bst_text_prefix s (d_Z (d_nth a 2)))
+    | 2 => e_res e_nat (bst_text_length s)
+    | 3 => e_res e_str (bst_purify s)
+    | 4 => e_res e_str (bst_change_case s (d_str (d_nth a 4)))
+    | 5 => e_res e_Z (bst_width (cw_of (d_cw (d_nth a 5))) s)
+    | _ => e_res e_nat (bst_num_names s)
+    end
+  (* pattern conformance: the hand-written matchers against the live module-level regex objects *)
+  | 13%Z =>
+    let s := d_str (d_nth a 1) in
+    match d_nat (d_nth a 0) with
+    | 0 => e_list e_str (re_split sep_space s)            (* BIBTEX_SPACE_RE.split(s) *)
+    | 1 => e_str (strip_control_sequence s)               (* purify_special_char_re.sub('', s) *)
+    | 2 => e_list e_str (re_split sep_and s)              (* re.compile(' [Aa][Nn][Dd] ').split(s) *)
+    | _ => let r := find_closing_brace s in e_pair e_str e_str r
+    end
   | _ => L []
   end.
 
